@@ -120,7 +120,7 @@ def setup():
 
 
 def gen_cases(tier, seed):
-    n = {"quick": 900, "thorough": 20000}[tier]
+    n = {"quick": 900, "thorough": 100000}[tier]
     return [{"id": "c18-%05d" % i, "seed": stable_hash(seed, "C18", i), "mode": ["arg", "arg", "batch", "prop", "reach"][i % 5]}
             for i in range(n)]
 
